@@ -140,7 +140,16 @@ def run_script(sc):
         payoff = Forward(strike=0.0)
     else:
         payoff = Vanilla(strike=[0.0, 1.0], payoff_type=PayoffType.CALL)
-    product = Product(Spot(), payoff, maturity=1.0, notional=1.0)
+    # every other script prices a product whose underlying reads the pure-jump component of the path (as the default-time
+    # underlyings do): in the scripted paths it carries the same terminal values, component by component
+    class JumpSpot(Spot):
+        def value(self, times, path, jump_path, payoff_underlying=None):
+            return jump_path[..., -1]
+
+        def _value_log(self, times, path, jump_path, payoff_underlying=None):
+            return jump_path[..., -1]
+    under = JumpSpot() if (sc.get("N0", 0) + sc.get("L0", 0)) % 2 == 0 else Spot()
+    product = Product(under, payoff, maturity=1.0, notional=1.0)
     engine = eng.Engine(conf, stubs.ScriptedCoupling())
 
     # observation points (namespace of the engine module only; rpylib itself is untouched)
